@@ -1,20 +1,25 @@
 ---------------------------- MODULE Merge_Cases ----------------------------
 (* The small (old root, cset) universe shared by Merge_MC (design-level model checking) and
    Merge_Export (spec -> code: the same pairs are merged for real):
-       d  (directory entry / missing parent),  d/f,  g      (+ e: target of a symlinked d, k: old hard link of g) *)
+       d  (directory entry / missing parent),  d/f,  g,  h   (+ e: target of a symlinked d, k: old hard link of g)
+   g as a symlink points to d: over an existing directory g it is tolerated when d is a directory (the
+   CannotOverwrite retry of merge_contents) and refused otherwise; h is a hard-link mate of d/f that is
+   iterated AFTER g, so state carried across the retry (merged inodes) matters. *)
 EXTENDS Merge
-CONSTANTS NChunks, ODKinds, OFKinds, OGKinds, CDKinds, CFKinds, CGKinds   \* kind universes: see KINDS in drivers/c18_merge.py
+CONSTANTS NChunks, ODKinds, OFKinds, OGKinds, CDKinds, CFKinds, CGKinds, CHKinds   \* kind universes: see KINDS in drivers/c18_merge.py
 
 D == <<"d">>
 F == <<"d", "f">>
 G == <<"g">>
 E == <<"e">>
 K == <<"k">>
+H == <<"h">>
 
 
-Sel == {s \in [od : ODKinds, of : OFKinds, og : OGKinds, cd : CDKinds, cf : CFKinds, cg : CGKinds] :
+Sel == {s \in [od : ODKinds, of : OFKinds, og : OGKinds, cd : CDKinds, cf : CFKinds, cg : CGKinds, ch : CHKinds] :
           /\ (s.of # "absent" => s.od \in {"dir", "symdir"})
           /\ (s.cg = "mate" => s.cf = "file")
+          /\ (s.ch = "mate" => s.cf = "file")
           /\ (s.cd = "none" /\ s.cf = "none" => s.cg # "none")}
 
 O(path, type, content, target, linkto, mode, uid, gid, mtime) ==
@@ -47,15 +52,17 @@ Ent(path, type, content, target, grp, mode, uid, gid, mtime) ==
 CsetSpec(s) ==
   (IF s.cd = "dir" THEN <<Ent(D, "dir", "-", "", 0, 493, 1, 2, 10)>> ELSE <<>>)
   \o (CASE s.cf = "none" -> <<>>
-        [] s.cf = "file" -> <<Ent(F, "file", "newF", "", IF s.cg = "mate" THEN 1 ELSE 0, 416, 3, 4, 20)>>
+        [] s.cf = "file" -> <<Ent(F, "file", "newF", "", IF s.cg = "mate" \/ s.ch = "mate" THEN 1 ELSE 0, 416, 3, 4, 20)>>
         [] s.cf = "sym"  -> <<Ent(F, "sym", "-", "newT", 0, 511, 3, 4, 20)>>
         [] s.cf = "fifo" -> <<Ent(F, "fifo", "-", "", 0, 384, 3, 4, 20)>>)
   \o (CASE s.cg = "none" -> <<>>
         [] s.cg = "file" -> <<Ent(G, "file", "newG", "", 0, 365, 5, 6, 30)>>
-        [] s.cg = "sym"  -> <<Ent(G, "sym", "-", "e", 0, 511, 5, 6, 30)>>
+        [] s.cg = "sym"  -> <<Ent(G, "sym", "-", "d", 0, 511, 5, 6, 30)>>
         [] s.cg = "mate" -> <<Ent(G, "file", "newF", "", 1, 416, 3, 4, 20)>>)
+  \o (IF s.ch = "mate" THEN <<Ent(H, "file", "newF", "", 1, 416, 3, 4, 20)>> ELSE <<>>)
 
 AllLinks == {[t |-> "e", abs |-> FALSE, ext |-> FALSE, comps |-> <<"e">>],
+             [t |-> "d", abs |-> FALSE, ext |-> FALSE, comps |-> <<"d">>],
              [t |-> "gone", abs |-> FALSE, ext |-> FALSE, comps |-> <<"gone">>],
              [t |-> "oldT", abs |-> FALSE, ext |-> FALSE, comps |-> <<"oldT">>],
              [t |-> "newT", abs |-> FALSE, ext |-> FALSE, comps |-> <<"newT">>]}
